@@ -137,6 +137,28 @@ CHECKS["C09"] = {
     "level_note": "deviations below the statistical resolution and isochrony are not observable",
 }
 
+CHECKS["C01"] = {
+    "title": "every honest signature verifies (both variants, any thread count)",
+    "rule": "Each monitored execution is one sign call on the real code followed by the crate's verify AND an independent "
+            "Algorithm 16; sign runs under the panic monitor and a logical-step progress bound (the harness RNG unwinds a "
+            "call that consumed the randomness of 1000 honest attempts). Legs: (matrix) key pool x 12 message shapes (empty, "
+            "1 byte, lengths around the SHAKE rate, 4 KiB, 1 MiB/16 MiB) x 14 randomness strategies driven through the "
+            "SignRng hook (honest; Bernoulli bytes forced to accept at rates 12-100% for 1-4 attempts -> norm-rejection "
+            "branch; reject bursts; z0=0; constant and counter prefixes) x failpoint forcing 0/1/2/5 compression failures; hook events record which retry branch each execution took. (native) "
+            "the un-overridden thread_rng path, enough Falcon-1024 signatures to see NATURAL compression retries (~1/1000). "
+            "(concurrent) 2/8/16/64 threads behind a barrier sharing one key while keygen runs alongside; every signature "
+            "verified in-thread, by the main thread and by the reference; call/return timestamps give the number of "
+            "overlapping call pairs. distinct_nontrivial = distinct (variant, key, message shape, strategy, failpoint) cells "
+            "whose execution took at least one retry branch + native chunks and natural retries + thread configurations.",
+    "assumptions": ["reference verifier (self-tested)", "scripted randomness steers by the current 40+32+17-per-iteration draw pattern; if the pattern changes the required branch counters drop to zero and the run is inconclusive, not a violation"],
+    "legs": [{"name": "matrix"}, {"name": "native"}, {"name": "concurrent"},
+             {"name": "tsan", "external": "tsan", "tiers": ["thorough"]},
+             {"name": "miri-sign", "external": "miri", "tiers": ["thorough"]}],
+    "technique": "end-to-end oracle (crate verify + reference verifier) over executions steered by scripted randomness and failpoints at hooks, branch-coverage events, concurrency stress with overlap evidence; ThreadSanitizer and Miri legs in the thorough tier",
+    "level_text": "Executions of the real signer over hostile randomness, forced retry branches and shared-key concurrency, each checked by two verifiers.",
+    "level_note": "sampler outcomes not reachable by the strategies and unbounded thread counts are not covered",
+}
+
 NOT_APPLICABLE = {}
 
 ENGINES = [
